@@ -16,7 +16,7 @@ ASSUMPTIONS = [
     "str-valued domains, with values distinct from one variable to the next, are used so that neither a number nor a neighbour's value can be mistaken for a domain value",
 ]
 BOUNDS = {
-    "quick": "11 algorithms x {lone variable with a unary constraint, pair, pair+isolated variable, pair with a unary constraint (thorough only for mgm2, maxsum, dsa)} (+ chain-3 for dpop/syncbb/mgm), domain 2 (str values, distinct per variable), min mode; canonical schedule, 40 transitions (16 for the never-ending synchronous ones: dsatuto, maxsum, amaxsum)",
+    "quick": "11 algorithms x {lone variable with a unary constraint, pair, pair with a single-value domain, pair+isolated variable, pair with a unary constraint (thorough only for mgm2, maxsum, dsa)} (+ chain-3 for dpop/syncbb/mgm), domain 2 (str values, distinct per variable), min mode; canonical schedule, 40 transitions (16 for the never-ending synchronous ones: dsatuto, maxsum, amaxsum)",
     "thorough": "quick + max mode, all schedules on the pair, chain-3 for every algorithm, 60 transitions",
 }
 OUTSIDE = "more than 3 variables, domains above 2, runs beyond the transition budget, mixeddsa/ncbb/maxsum_dynamic (not in the property's list)"
@@ -32,6 +32,10 @@ def jobs(tier):
             structs.append("pair_unary")
         if algo in ("dpop", "syncbb", "mgm") or (algo == "dsa" and tier == "thorough"):
             structs.append("chain3")
+        # a pair whose first variable has a single-value domain (a fixed variable)
+        out.append({"name": "%s-pair-fixedvar-min" % algo, "algo": algo, "fixed": True,
+                    "spec": spec("pair", "min", dom={"x": 1, "y": 2}, domain_kind="own"),
+                    "steps": 16 if algo in ("dsatuto", "maxsum", "amaxsum") else 40})
         for s in structs:
             steps = 16 if algo in ("dsatuto", "maxsum", "amaxsum") else 40
             if algo == "dsa" and s == "chain3":
